@@ -7,3 +7,4 @@ import AJ.Props.C11Doc
 import AJ.Props.C11Slot
 import AJ.Props.C11MpSlot
 import AJ.Props.C11MpDoc
+import AJ.Props.C11MemRun
